@@ -1356,6 +1356,13 @@ func main() {
 		erased = dedup(erased)
 		report[u.Out] = map[string]interface{}{"functions": u.Funcs, "erased": erased, "changed": string(old) != src}
 	}
+	if err := genTables(*repo, *out); err != nil {
+		fmt.Fprintf(os.Stderr, "go2coq: TablesGen.v: %v\n", err)
+		report["TablesGen.v"] = map[string]interface{}{"error": err.Error()}
+		failed = true
+	} else {
+		report["TablesGen.v"] = map[string]interface{}{"functions": []string{"select / access / call tables of gbn/*.go"}}
+	}
 	b, _ := json.MarshalIndent(report, "", " ")
 	_ = os.WriteFile(filepath.Join(*out, "go2coq_report.json"), b, 0o644)
 	if failed {
